@@ -174,12 +174,7 @@ func NewSingleHostReverseProxy(target *url.URL, without string, keepalive int, t
 				req.URL.Opaque = trimPathPrefix(req.URL.Opaque, without)
 			}
 			if req.URL.RawPath != "" {
-				trimmed := trimPathPrefix(req.URL.RawPath, without)
-				if trimmed == req.URL.RawPath {
-					// the prefix as it is written in an encoded path
-					trimmed = trimPathPrefix(req.URL.RawPath, (&url.URL{Path: without}).EscapedPath())
-				}
-				req.URL.RawPath = trimmed
+				req.URL.RawPath = trimEscapedPathPrefix(req.URL.RawPath, without)
 			}
 		}
 
@@ -777,6 +772,42 @@ func trimPathPrefix(p, prefix string) string {
 		return p[len(prefix):]
 	}
 	return p
+}
+
+// trimEscapedPathPrefix removes from the encoded path p the piece that
+// decodes to prefix, however the client chose to spell it (%61pi for api),
+// with the same case rule as trimPathPrefix. The rest of p keeps its escapes.
+func trimEscapedPathPrefix(p, prefix string) string {
+	decoded := make([]byte, 0, len(prefix))
+	i := 0
+	for i < len(p) && len(decoded) < len(prefix) {
+		if p[i] == '%' && i+2 < len(p) && ishex(p[i+1]) && ishex(p[i+2]) {
+			decoded = append(decoded, unhex(p[i+1])<<4|unhex(p[i+2]))
+			i += 3
+			continue
+		}
+		decoded = append(decoded, p[i])
+		i++
+	}
+	if len(decoded) != len(prefix) || trimPathPrefix(string(decoded), prefix) != "" {
+		return p
+	}
+	return p[i:]
+}
+
+func ishex(c byte) bool {
+	return '0' <= c && c <= '9' || 'a' <= c && c <= 'f' || 'A' <= c && c <= 'F'
+}
+
+func unhex(c byte) byte {
+	switch {
+	case '0' <= c && c <= '9':
+		return c - '0'
+	case 'a' <= c && c <= 'f':
+		return c - 'a' + 10
+	default:
+		return c - 'A' + 10
+	}
 }
 
 // stripPort returns address without its port if it has one and
